@@ -19,7 +19,8 @@ class StepObs(object):
   __slots__ = ('op', 'recs', 'exc', 'state', 'state_name', 'state_fn_name', 'state_fn_ok',
                'current_state', 'spy_rtc', 'spy_full', 'trace', 'ret', 'dispatched', 'live_spy',
                'live_trace', 'queue', 'deferred', 'pred', 'tb', 'trace_text_ok', 'instrumented',
-               'trace_len_before', 'spy_full_before', 'model_q', 'model_d', 'trace_before', 'posted')
+               'trace_len_before', 'spy_full_before', 'model_q', 'model_d', 'trace_before', 'posted',
+               'trace_objs', 'trace_objs_before')
 
   def __init__(self, op):
     self.op = op
@@ -48,6 +49,8 @@ class StepObs(object):
     self.model_q = None
     self.model_d = None
     self.trace_before = None
+    self.trace_objs = None          # the record objects themselves (kept alive: identity tells new records from old ones)
+    self.trace_objs_before = None
     self.posted = []
 
 
@@ -379,6 +382,7 @@ class ChartRun(object):
       ob.spy_rtc = list(c.rtc.spy)
       ob.spy_full = list(c.full.spy)
       ob.trace = [(t.start_state, t.signal, t.end_state, t.datetime) for t in c.full.trace]
+      ob.trace_objs = list(c.full.trace)
     if host in ('queued',):
       ob.queue = [getattr(e, 'payload', None) for e in c.queue.snapshot()] if isinstance(c.queue, prims.SimDeque) else None
       ob.deferred = [getattr(e, 'payload', None) for e in c.defer_queue.snapshot()] if isinstance(c.defer_queue, prims.SimDeque) else None
@@ -389,6 +393,7 @@ class ChartRun(object):
     c = self.chart
     if hasattr(c, 'full') and getattr(c, 'instrumented', False):
       ob.trace_before = [(t.start_state, t.signal, t.end_state, t.datetime) for t in c.full.trace]
+      ob.trace_objs_before = list(c.full.trace)
       ob.trace_len_before = len(ob.trace_before)
       ob.spy_full_before = list(c.full.spy)
     try:
@@ -472,6 +477,14 @@ class ChartRun(object):
           self.qm.post_fifo((e.payload, op[1]))
           pred = self._model_circuit()
           ob = self.do(op, f)
+      elif k == 'restart':
+        # start_at called again on a chart that has been running: it starts over from the outside
+        try:
+          pred = self.ref.start(op[1])
+          self._apply_fx(pred, None)
+        except FaultReached:
+          pred = None
+        ob = self.do(op, lambda: c.start_at(build.h[op[1]]))
       elif k == 'post_fifo':
         e = self.new_event(op[1])
         self.qm.post_fifo((e.payload, op[1]))
